@@ -82,6 +82,8 @@ func arithJobs(tier string, o []string, receiverVariants bool) []*sym.Job {
 		jobs = append(jobs, J("H_C01_mul", o, "wx", 1, "wy", 1, "p", p))
 	}
 	jobs = append(jobs, nat(J("H_C01_mul", o, "wx", 2, "wy", 2, "p", 38)), nat(J("H_C01_mul", o, "wx", 2, "wy", 1, "p", 20)))
+	// concrete multiplier mantissas: the product is linear in x (real multiplication code)
+	jobs = append(jobs, J("H_C01_mul", o, "wx", 1, "wy", 1, "p", 19, "ypat0", 8), J("H_C01_mul", o, "wx", 2, "wy", 2, "p", 25, "ypat0", 1, "ypat1", 8))
 	jobs = append(jobs, nat(J("H_C01_quo", o, "wx", 1, "wy", 1, "p", 19)), nat(J("H_C01_quo", o, "wx", 2, "wy", 2, "p", 5)),
 		// dividend longer than precision+divisor need (no zero extension; surplus low words feed the sticky bit)
 		nat(J("H_C01_quo", o, "wx", 3, "wy", 1, "p", 5)), nat(J("H_C01_quo", o, "wx", 4, "wy", 2, "p", 3)))
@@ -97,7 +99,7 @@ func arithJobs(tier string, o []string, receiverVariants bool) []*sym.Job {
 
 func init() {
 	arithBounds := map[string]string{
-		"quick":    "SetPrec: mantissa 1-3 words, p in {1,18,19,20,37,39}; Set/Neg/Abs: 1-2 words + zero/inf; Add/Sub: (wx,wy,digit alignment d,p) in {(1,1,0,19),(1,1,1,19),(1,1,-18,10),(1,1,19,19),(1,1,20,5),(1,1,-39,19),(2,1,-1,20),(1,1,19,18),(1,1,30,18),(2,1,19,37),(1,2,38,18)}; Mul 1x1 words (real body) p in {1,19,38}, 2x2 and 2x1 words via the dec.mul contract; Quo 1/1, 2/2, 3/1 and 4/2 words (the last two with a dividend longer than the precision requires) via the dec.div contract. Every cell: all word values, both signs, six modes, full int32 exponent range (overflow/underflow edges included), fresh or dirty receiver as noted.",
+		"quick":    "SetPrec: mantissa 1-3 words, p in {1,18,19,20,37,39}; Set/Neg/Abs: 1-2 words + zero/inf; Add/Sub: (wx,wy,digit alignment d,p) in {(1,1,0,19),(1,1,1,19),(1,1,-18,10),(1,1,19,19),(1,1,20,5),(1,1,-39,19),(2,1,-1,20),(1,1,19,18),(1,1,30,18),(2,1,19,37),(1,2,38,18)}; Mul 1x1 words (real body) p in {1,19,38}, 2x2 and 2x1 words via the dec.mul contract, 1x1 and 2x2 words (real body) with a concrete multiplier mantissa; Quo 1/1, 2/2, 3/1 and 4/2 words (the last two with a dividend longer than the precision requires) via the dec.div contract. Every cell: all word values, both signs, six modes, full int32 exponent range (overflow/underflow edges included), fresh or dirty receiver as noted.",
 		"thorough": "as quick plus SetPrec for every p = 1,5,9,... below 19w (w <= 3) and 4 words; 12 more Add/Sub alignment cells up to 3 words; Mul 2x1 real body, x*x, 3x3/3x2 via contract; Quo up to 3/2 words via contract and 1/1 words with the real division code.",
 	}
 	arithOutside := []string{
